@@ -159,6 +159,24 @@ theorem isEmpty_doubleBackslashes (s : Str) : (doubleBackslashes s).isEmpty = s.
   | nil => rfl
   | cons c r => rw [doubleBackslashes_cons]; split <;> rfl
 
+/-- a backslash-free prefix is a prefix of the doubled text exactly when it is one of the text -/
+theorem isPrefixOf_doubleBackslashes : ∀ (p s : Str), '\\' ∉ p →
+    p.isPrefixOf (doubleBackslashes s) = p.isPrefixOf s
+  | [], _, _ => by simp
+  | _ :: _, [], _ => by simp [doubleBackslashes]
+  | a :: p, c :: s, h => by
+    have ha : a ≠ '\\' := fun e => h (by simp [e])
+    have hp : '\\' ∉ p := fun hm => h (List.mem_cons_of_mem _ hm)
+    rw [doubleBackslashes_cons]
+    by_cases hc : c = '\\'
+    · subst hc
+      have : (a == '\\') = false := by simpa using ha
+      simp [List.isPrefixOf, this]
+    · simp only [hc, if_false, List.isPrefixOf, isPrefixOf_doubleBackslashes p s hp]
+
+theorem startsInclude_doubleBackslashes (s : Str) : startsInclude (doubleBackslashes s) = startsInclude s :=
+  isPrefixOf_doubleBackslashes _ s (by decide)
+
 /-! ##### `templateExpand` -/
 
 theorem templateExpand_cons_ne {c : Char} (h : c ≠ '\\') (r : Str) :
@@ -204,7 +222,7 @@ theorem templateExpand_double (s : Str) : templateExpand (doubleBackslashes s) =
 def wrapOf (s : Str) : Str → Str :=
   if s.isEmpty then sq
   else if s.any isQuote then (if s.contains '"' then sq else dq)
-  else if s.any isComplexChar then sq
+  else if s.any isComplexChar || startsInclude s then sq
   else id
 
 theorem formatString_native_eq {s : Str} (h : s.contains '$' = false) : formatString .native s = wrapOf s s := by
@@ -222,7 +240,8 @@ theorem formatString_native_double {s : Str} (h : s.contains '$' = false) :
     formatString .native (doubleBackslashes s) = wrapOf s (doubleBackslashes s) := by
   rw [formatString_native_eq (by rw [contains_doubleBackslashes]; exact h)]
   unfold wrapOf
-  rw [isEmpty_doubleBackslashes, any_doubleBackslashes, any_doubleBackslashes, contains_doubleBackslashes]
+  rw [isEmpty_doubleBackslashes, any_doubleBackslashes, any_doubleBackslashes, contains_doubleBackslashes,
+    startsInclude_doubleBackslashes]
 
 theorem wrapOf_cases (s : Str) :
     wrapOf s = sq ∨ wrapOf s = dq ∨ (wrapOf s = id ∧ s ≠ [] ∧ s.any isQuote = false ∧ s.any isComplexChar = false) := by
@@ -238,7 +257,7 @@ theorem wrapOf_cases (s : Str) :
       split
       · exact Or.inl rfl
       · rename_i hc
-        refine Or.inr (Or.inr ⟨rfl, ?_, by simpa using hq, by simpa using hc⟩)
+        refine Or.inr (Or.inr ⟨rfl, ?_, by simpa using hq, by simpa using (by simpa using hc : _ ∧ _).1⟩)
         intro e; subst e; simp at hne
 
 theorem expand_sq {pre : Str} (hp : '\\' ∉ pre) (s : Str) :
